@@ -49,8 +49,13 @@ JudgeSample(e) ==
        \cup (IF Decided(e, e.a) /\ ~OnArcVec(e.from, e.to, e.a, N_AU)
              THEN {"sample-off-arc"} ELSE {})
 
+\* random real limits probed 1e-9 rad beside an arc end: the side is known by construction
+JudgeNearEnd(e) ==
+  IF e.acc # (e.side = "inside") THEN {"verdict-wrong-1e-9-beside-an-arc-end"} ELSE {}
+
 Judge(e) ==
   CASE e.ev = "compliant" -> JudgeCompliant(e)
+    [] e.ev = "near-end"  -> JudgeNearEnd(e)
     [] e.ev = "filter"    -> JudgeFilter(e)
     [] e.ev = "centre"    -> JudgeCentre(e)
     [] e.ev = "sample"    -> JudgeSample(e)
